@@ -10,7 +10,11 @@ for d in sorted(glob.glob('/verif/seeded/C*-*')):
     ck = m.get('checked_by_me', {})
     what = m.get('what_breaks', '').replace('\n', ' ').replace('|', '/')
     needs = m.get('needs_to_manifest', '').replace('\n', ' ').replace('|', '/')
-    rows.append((os.path.basename(d), m.get('property', ''), ', '.join(m.get('files_changed', [])), what[:260], needs[:220], ck.get('check_caught', '?'), ck.get('caught_by', '')))
+    fv = m.get('first_verdict')
+    caught = ck.get('check_caught', '?')
+    if fv and fv.get('check_caught') != caught:
+        caught += ' (first evaluated, before the check was changed for it: %s)' % fv.get('check_caught')
+    rows.append((os.path.basename(d), m.get('property', ''), ', '.join(m.get('files_changed', [])), what[:260], needs[:220], caught, ck.get('caught_by', '')))
 out = ['# Seeded changes', '',
        'Each directory holds `patch.diff` (the change), `demo_test.go.txt` (a test that fails with the change and passes without) and `meta.json`',
        '(what it breaks, what it needs to manifest, what I ran: demo without/with the change, the unedited suite with the change, the property\'s quick check',
@@ -20,7 +24,8 @@ out = ['# Seeded changes', '',
 for r in rows:
     out.append('| %s | %s | %s | %s | %s | %s | %s |' % r)
 n = len(rows)
-c = sum(1 for r in rows if r[5] == 'yes')
-out += ['', '%d of %d seeded changes are reported as VIOLATION by the quick check of their property.' % (c, n), '']
+c = sum(1 for r in rows if r[5].startswith('yes'))
+first = sum(1 for r in rows if r[5] == 'yes')
+out += ['', '%d of %d seeded changes are reported as VIOLATION by the quick check of their property (%d of them already when first evaluated; `<id>-3`/`<id>-4` are the second round, first evaluated against frozen machinery: see DESIGN.md section 10).' % (c, n, first), '']
 open('/verif/seeded/README.md', 'w').write('\n'.join(out))
 print(c, 'of', n)
